@@ -607,9 +607,20 @@ func (w *world) datagrams(now, offset uint32, full bool) []dg {
 // can only be processed after the clock has moved on. "Within 432 slots of the server's current
 // timeslot" is judged when the report can change state, i.e. after the lock became available.
 func (w *world) queuedAcrossClockChange() {
-	snap := w.S.VerifSnapshot(false)
+	snap := w.S.VerifSnapshot(true)
 	off := snap.Offset
 	now := off + 3201
+	// the two slots used below must be empty (earlier configurations of this server lifetime stored reports
+	// at random slots of the same region; a second report for an occupied slot would be an equivocation)
+	if arr := snap.Reports[w.A.ID]; arr != nil {
+		for k := 0; k < 200 && (arr[int(now-432-off)].PowerOutput != 0 || arr[int(now-430-off)].PowerOutput != 0); k++ {
+			now++
+		}
+		if arr[int(now-432-off)].PowerOutput != 0 || arr[int(now-430-off)].PowerOutput != 0 {
+			w.r.Count("queued.not_established", 1)
+			return
+		}
+	}
 	drv.SetClock(now)
 	path := filepath.Join(w.Dir, "allDeviceStats.dat")
 	keep := path + ".keep"
